@@ -13,8 +13,8 @@ LABELLED = {4, 6, 7, 13, 20, 25, 30, 37, 39, 45, 50, 16, 40, 11, 36, 17, 41}
 
 def configs(tier):
     out = []
-    looms = (1, 2)
-    for nl, np_, nt, nc, rank in itertools.product(looms, (1, 2), (1, 2), (1, 2), (False, True)):
+    big = (1, 2, 3) if tier != "quick" else (1, 2)
+    for nl, np_, nt, nc, rank in itertools.product(big, big, (1, 2), big, (False, True)):
         if tier == "quick" and (nl, np_, nt, nc, rank) not in ((1, 1, 1, 1, False), (2, 2, 2, 2, True), (2, 1, 2, 1, False),
                                                               (1, 2, 1, 2, True)):
             continue
@@ -261,7 +261,7 @@ def run(prop, tier):
         ctx.cov["distinct_type_value_pairs"] = len(allpairs)
         ctx.part("sweep", row_order_configurations=len(order_configs(tier)), configurations=len(configs(tier)), models=len(models), runs=len(jobs), accepted=nacc)
         ctx.sample({"config": configs(tier)[-1], "model": "nosv", "history": "tasks"})
-        ctx.cov["rule"] = ("looms 1-2 x processes 1-2 x threads 1-2 x CPUs 1-2 x rank on/off (rank order reversed w.r.t. name order, physical ids "
+        ctx.cov["rule"] = ("looms 1-2 (thorough 1-3) x processes 1-2 (1-3) x threads 1-2 x CPUs 1-2 (1-3) x rank on/off (rank order reversed w.r.t. name order, physical ids "
                            "reversed w.r.t. indices) x 8 models x {plain, every enter/leave pair on all threads, nesting, tasks with shared and private "
                            "type labels per process, breakdown (-b), flush, affinity}; plus the row-order family: 2 looms x 2 processes with every assignment of "
                            "ranks 0-3 (or none) and PIDs whose string and numeric orders differ; every accepted trace's .prv/.pcf/.row validated")
